@@ -301,9 +301,13 @@ func execKS(p ksProg, c *hx.Case) (err error) {
 	var mu sync.Mutex
 	var viol error
 	cursors := map[string]string{}
-	onAssign := func(as map[string][]*workerpb.SourceSplit) {
+	incarnation := 0 // of the splitter: a closed one belongs to a job that is gone, what it still says reaches nobody
+	onAssign := func(inc int, as map[string][]*workerpb.SourceSplit) {
 		mu.Lock()
 		defer mu.Unlock()
+		if inc != incarnation {
+			return
+		}
 		for runner, splits := range as {
 			if !slices.Contains(runners, runner) {
 				viol = hx.Errf("shards were assigned to unknown runner %q", runner)
@@ -334,7 +338,11 @@ func execKS(p ksProg, c *hx.Case) (err error) {
 	start := func(ck *snapshotpb.SourceCheckpoint) (connectors.SourceSplitter, error) {
 		cfg := kinesis.SourceConfig{StreamARN: arn, Client: client, ShardDiscoveryInterval: time.Millisecond}
 		errc := make(chan error, 8)
-		sp := cfg.NewSourceSplitter(runners, connectors.SourceSplitterHooks{AssignSplits: onAssign}, errc)
+		mu.Lock()
+		incarnation++
+		mine := incarnation
+		mu.Unlock()
+		sp := cfg.NewSourceSplitter(runners, connectors.SourceSplitterHooks{AssignSplits: func(as map[string][]*workerpb.SourceSplit) { onAssign(mine, as) }}, errc)
 		var serr error
 		func() {
 			defer func() {
